@@ -526,11 +526,17 @@ func (s *socket) flush() {
 	defer s.flushMu.Unlock()
 
 	if s.ReadyState() != "closed" && s.Transport().Writable() {
+		// take the callbacks before the packets: Send stores the packet first and its
+		// callback second, without this lock; taken the other way round, a Send racing
+		// with this flush could get its callback into this batch's group while its
+		// packet only makes the next batch, and the callback would run before the
+		// packet has been written.
+		packetsFn := s.packetsFn.AllAndClear()
 		if wbuf := s.writeBuffer.AllAndClear(); len(wbuf) > 0 {
 			socket_log.Debug("flushing buffer to transport")
 			s.Emit("flush", wbuf)
 			s.server.Emit("flush", s, wbuf)
-			if packetsFn := s.packetsFn.AllAndClear(); len(packetsFn) > 0 {
+			if len(packetsFn) > 0 {
 				s.sentCallbackFn.Push(packetsFn)
 			} else {
 				s.sentCallbackFn.Push(nil)
@@ -538,6 +544,11 @@ func (s *socket) flush() {
 			s.Transport().Send(wbuf)
 			s.Emit("drain")
 			s.server.Emit("drain", s)
+		} else if len(packetsFn) > 0 {
+			// nothing to flush: keep the callbacks for the batch their packets go out with
+			s.packetsFn.DoWrite(func(fns []SendCallback) []SendCallback {
+				return append(packetsFn, fns...)
+			})
 		}
 	}
 }
